@@ -39,6 +39,12 @@ extra = {
     "C15": " avg and med of eval_i64 / eval_f64 / eval_number each are the mean / median schema of their own value type (C11's schemas reused).",
     "C19": " eval_complex: a literal directly followed by `i` is the imaginary literal and consumes the `i`.",
 }
+if "C11" in CHECKS:
+    CHECKS["C11"]["level_note"] += "; known findings (eval_number, not repaired): med orders Integers through their doubles (order-dependent above 2^53), min/max compare a mixed Integer/Float pair through the Integer's double"
+if "C04" in CHECKS:
+    CHECKS["C04"]["level_claimed"]["text"] += " Constants and `@` are leaf primaries (consume their own token only); the post-operand hook does nothing but start an implicit product."
+if "C09" in CHECKS:
+    CHECKS["C09"]["level_claimed"]["text"] += " The shared superscript scanner (map and run) is a premise for `xⁿ`."
 for pid_, tx_ in extra.items():
     if pid_ in CHECKS:
         CHECKS[pid_]["level_claimed"]["text"] += tx_
@@ -57,7 +63,7 @@ m = {
         {"name": "rules", "path": "sc/", "serves_properties": sorted(CHECKS), "kind_free_text": "Python rule layer: THIR term normaliser + table extraction vs. reference tables (sc/spec.py), MIR census / dataflow rules, configuration matrix"},
     ],
     "checks": [CHECKS[p] for p in ids if p in CHECKS],
-    "notes": "Static analysis only. Every check rebuilds its fact base from the current /repo working tree (content-hash keyed cache under $TMPDIR). known_findings.json lists fixed defects (14 fix: commits in /repo).",
+    "notes": "Static analysis only. Every check rebuilds its fact base from the current /repo working tree (content-hash keyed cache under $TMPDIR). known_findings.json lists the fixed defects (18 fix: commits in /repo) and 4 known findings.",
     "not_applicable": na,
 }
 json.dump(m, open(os.path.join(VERIF, "MANIFEST.json"), "w"), indent=1)
